@@ -172,6 +172,7 @@ def run_case(mod, case, rec, known_keys):
     treated as passing so the search continues."""
     rec.begin(case)
     rec._absorb = lambda v: _absorb(mod, case, v, known_keys, rec)
+    _breadcrumb(case)
     try:
         try:
             mod.check(case, rec)
@@ -189,6 +190,105 @@ def run_case(mod, case, rec, known_keys):
         rec.known_hits[key] += 1
     finally:
         rec.end()
+
+
+_CRUMB = {"dir": None}
+
+
+def _breadcrumb(case):
+    """Worker processes note the case they are about to run, so that a
+    process killed by a signal (a crash in native code reached through the
+    library) still leaves its case behind."""
+    d = _CRUMB["dir"]
+    if d is None:
+        return
+    try:
+        with open(os.path.join(d, "%d.json" % os.getpid()), "w",
+                  encoding="utf8") as f:
+            f.write(canon(case))
+    except OSError:
+        pass
+
+
+def _pool_map(fn, jobs, procs):
+    """Like Pool.imap_unordered, but a worker that dies does not hang the
+    run: yields results, then (if the pool broke) a {"crash": case} record."""
+    import multiprocessing as mp
+    import shutil
+    import tempfile
+    from concurrent.futures import ProcessPoolExecutor, as_completed
+    from concurrent.futures.process import BrokenProcessPool
+    base = "/dev/shm" if os.path.isdir("/dev/shm") else None
+    crumbs = tempfile.mkdtemp(prefix="vf-crumbs-", dir=base)
+    _CRUMB["dir"] = crumbs
+    broken = False
+    try:
+        with ProcessPoolExecutor(max_workers=max(1, min(procs, len(jobs))),
+                                 mp_context=mp.get_context("fork")) as ex:
+            futs = [ex.submit(fn, j) for j in jobs]
+            for f in as_completed(futs):
+                try:
+                    yield f.result()
+                except BrokenProcessPool:
+                    broken = True
+                    break
+        if broken:
+            case = None
+            for name in sorted(os.listdir(crumbs)):
+                pid = int(name.split(".")[0])
+                try:
+                    os.kill(pid, 0)
+                    alive = True
+                except OSError:
+                    alive = False
+                if not alive:
+                    with open(os.path.join(crumbs, name),
+                              encoding="utf8") as fh:
+                        case = json.loads(fh.read())
+                    break
+            yield {"crash": case}
+    finally:
+        _CRUMB["dir"] = None
+        shutil.rmtree(crumbs, ignore_errors=True)
+
+
+CRASH_MSG = ("the process running this case was killed by a signal: a crash "
+             "in native code reached through the library")
+
+
+def _case_worker(args):
+    modname, case, known_keys = args
+    import importlib
+    mod = importlib.import_module(modname)
+    rec = Recorder()
+    fail = err = None
+    try:
+        run_case(mod, case, rec, known_keys)
+    except Violation as v:
+        fail = (json.loads(canon(case)), v.sub, v.msg)
+    except BaseException as e:
+        err = "".join(traceback.format_exception(
+            type(e), e, e.__traceback__))[-6000:]
+    return {"rec": rec.dump(), "fail": fail, "error": err}
+
+
+def run_cases_isolated(mod, cases, rec, known_keys, procs=8):
+    """Pinned cases, each in a child process.  Returns (n, fail, error)."""
+    jobs = [(mod.__name__, c, list(known_keys)) for c in cases]
+    if not jobs:
+        return 0, None, None
+    n, fails, errors = 0, [], []
+    for out in _pool_map(_case_worker, jobs, procs):
+        if "crash" in out:
+            fails.append((out["crash"], "process-crash", CRASH_MSG))
+            continue
+        n += 1
+        rec.merge(out["rec"])
+        if out["fail"]:
+            fails.append(out["fail"])
+        if out["error"]:
+            errors.append(out["error"])
+    return n, (fails[0] if fails else None), (errors[0] if errors else None)
 
 
 def _absorb(mod, case, v, known_keys, rec):
@@ -289,19 +389,21 @@ def run_hypothesis(mod, tier, seed, rec, known_keys, shards, n_examples,
                    procs=16, shrink_s=25):
     """Run ``shards`` independent seeded Hypothesis campaigns in parallel.
     Returns (fail, error): fail = (case, sub, msg) of the smallest failure."""
-    import multiprocessing as mp
-    ctx = mp.get_context("fork")
     jobs = [(mod.__name__, tier, seed, k, n_examples, list(known_keys),
              shrink_s) for k in range(shards)]
     fails, errors = [], []
-    with ctx.Pool(min(procs, shards)) as pool:
-        for out in pool.imap_unordered(_worker, jobs):
-            rec.merge(out["rec"])
-            if out["fail"]:
-                fails.append(out["fail"])
-            if out["error"]:
-                errors.append(out["error"])
+    for out in _pool_map(_worker, jobs, min(procs, shards)):
+        if "crash" in out:
+            fails.append((out["crash"], "process-crash", CRASH_MSG))
+            continue
+        rec.merge(out["rec"])
+        if out["fail"]:
+            fails.append(out["fail"])
+        if out["error"]:
+            errors.append(out["error"])
     fail = min(fails, key=lambda f: len(canon(f[0]))) if fails else None
+    if fail is not None and fail[0] is None:
+        return None, "a worker process died and left no case behind"
     return fail, (errors[0] if errors else None)
 
 
@@ -328,19 +430,19 @@ def _enum_worker(args):
 def run_enumeration(mod, tier, rec, known_keys, procs=16):
     """Exhaustive sub-domain: ``mod.enum_chunks(tier)`` lists chunk ids,
     ``mod.enum_chunk(tier, chunk)`` yields the cases of one chunk."""
-    import multiprocessing as mp
-    ctx = mp.get_context("fork")
     chunks = list(mod.enum_chunks(tier))
     jobs = [(mod.__name__, tier, c, list(known_keys)) for c in chunks]
     fails, errors = [], []
     sub = Recorder()
-    with ctx.Pool(procs) as pool:
-        for out in pool.imap_unordered(_enum_worker, jobs, chunksize=1):
-            sub.merge(out["rec"])
-            if out["fail"]:
-                fails.append(out["fail"])
-            if out["error"]:
-                errors.append(out["error"])
+    for out in _pool_map(_enum_worker, jobs, procs):
+        if "crash" in out:
+            fails.append((out["crash"], "process-crash", CRASH_MSG))
+            continue
+        sub.merge(out["rec"])
+        if out["fail"]:
+            fails.append(out["fail"])
+        if out["error"]:
+            errors.append(out["error"])
     n = sub.evaluations
     rec.merge(sub.dump())
     fail = min(fails, key=lambda f: len(canon(f[0]))) if fails else None
